@@ -639,4 +639,8 @@ def run(ctx, chk):
     chk.rule("C16.getter", "cbor_string_codepoint_count and cbor_string_length report the stored values as they are: every path returns "
              "the item's field (no second opinion in the accessor; shared field-accessor rule)")
     rules.check_field_getters(chk, "C16.getter", prog, eff, names=("cbor_string_codepoint_count", "cbor_string_length", "cbor_string_handle"))
+    chk.rule("C16.set-handle", "the set-handle routines attach what they are given on every path - data pointer and length become the arguments, with no "
+             "early way out for a block the item already holds - and obtain or release no memory (byte length and content are preserved unchanged; the count is that of the bytes now attached)")
+    import rules as _rsh
+    _rsh.check_set_handle(chk, "C16.set-handle", prog, eff)
     chk.exhaustive = True
